@@ -31,14 +31,16 @@ THEOREMS = [
     "PM.Testing.fromMessages_node_any", "PM.Testing.toLoggedIn_eq_toLogged", "PM.Testing.children_perm", "PM.Testing.sim_tree",
     "PM.C17.of_type_any_order",
 ]
-RULE = ("programs of the core language, structured profile (with-blocks, start_task inside actions, try/except, tracebacks, "
+RULE = ("first a fixed corpus of 3 hand-written programs (same-type nesting in one task, the same types at the same levels in later tasks, "
+        "sequential and interleaved); then programs of the core language, structured profile (with-blocks, start_task inside actions, try/except, tracebacks, "
         "serialize_task_id + continue_task in the same logger, immediately or delayed, typed and untyped actions/messages), 3 action "
         "types + eliot:remote_task and 2 message types so that repeated types, equal-typed siblings and equal-typed descendants are "
         "the norm; 1 program in 6 is widened (10-14, sometimes 20-26, extra children in one action, some with grand-children: two-digit level components); all logged through one "
         "MemoryLogger; per program: of_type for every action type present and one absent, LoggedMessage.of_type for every message "
         "type and always for the empty type (1 message in 10 is logged untyped), 6-14 assertHasAction / assertHasMessage expectations (matching subsets, perturbed value, missing key, wrong outcome, "
         "absent key expected as None / 0 / empty string / False, present key expected as None, the fields of a later entry of the same type); about 1 logged "
-        "field value in 8 is None; 1 untyped action in 5 adds a success field (1 in 10 a start field) named exception / reason / status "
+        "field value in 8 is None; in 30% of the programs a later top-level task repeats the shape of an earlier one under a root of "
+        "another type; 1 untyped action in 5 adds a success field (1 in 10 a start field) named exception / reason / status "
         "/ succeeded; in 15% of the programs one or two actions are started explicitly and never finished (the log a "
         "test sees while an action is running); type arguments alternate between names and ActionType / MessageType objects, empty "
         "expectations between {}, None and the default; non-trivial = log with depth >= 2 and (>= 2 tasks or a type with >= 2 "
@@ -193,8 +195,62 @@ def clash_fields(rng, prog):
                 clash_fields(rng, s[k])
 
 
+def skeleton(s):
+    """The with / log structure of a statement (everything else dropped), as a fresh copy."""
+    if s["op"] == "log":
+        return dict(op="log", ms=dict(mtype=s["ms"]["mtype"], fields=[list(f) for f in s["ms"]["fields"]], sers=None))
+    if s["op"] == "with":
+        return dict(op="with", task=False, spec=dict(atype=s["spec"]["atype"], fields=[list(f) for f in s["spec"]["fields"]], sers=None),
+                    body=[k for k in (skeleton(c) for c in s["body"]) if k])
+    return None
+
+
+def echo_task(rng, prog):
+    """A later top-level task repeats the shape of an earlier one (same action types at the same levels), once under a
+    root of another type and sometimes once more unchanged: equal (level, type) pairs in different tasks of one logger."""
+    tops = [s for s in prog if s["op"] == "with" and any(c["op"] == "with" for c in s["body"])]
+    if not tops:
+        return
+    t = rng.choice(tops)
+    other = skeleton(t)
+    other["spec"]["atype"] = rng.choice([a for a in ("app:a", "app:b", "app:c") if a != t["spec"]["atype"].split("#")[0]])
+    prog.append(other)
+    if rng.random() < 0.5:
+        prog.append(skeleton(t))
+
+
+def corpus():
+    """Hand-written programs run first on every seed: same-type nesting in the first task, actions of that type at the
+    same levels in later tasks (under roots of the same and of other types), sequential and interleaved."""
+    import random
+
+    env = sysgen.gen_env(random.Random(0), dict(sysgen.DEFAULT_PROFILE, **PROFILE))
+
+    def act(t, *body, task=False):
+        return dict(op="with", task=task, spec=dict(atype=t, fields=[], sers=None), body=list(body))
+
+    def log(t="app:m1"):
+        return dict(op="log", ms=dict(mtype=t, fields=[], sers=None))
+
+    progs = [
+        # sequential: a[a[m]] ; b[a[m]] ; c[a[]] ; a[a[a[]]]
+        [act("app:a", act("app:a", log())), act("app:b", act("app:a", log("app:m2"))), act("app:c", act("app:a")),
+         act("app:a", act("app:a", act("app:a")))],
+        # interleaved: the second and third task start (start_task) while the first is open
+        [act("app:a", act("app:a", log()), act("app:b", act("app:a", log()), log(), task=True), log(),
+             act("app:c", log(), act("app:a", act("app:a")), task=True), act("app:a"))],
+        # the nesting comes second, deeper levels, a failing copy
+        [act("app:b", log(), act("app:a", act("app:b"))), act("app:a", log(), act("app:a", act("app:a"), log())),
+         act("app:c", log(), act("app:b", act("app:a"), log())),
+         dict(op="try", body=[act("app:b", log(), act("app:a", act("app:a")), dict(op="raise", e=0))], handler=[])],
+    ]
+    return [dict(env=env, prog=p) for p in progs]
+
+
 def gen_program(rng):
     case = sysgen.gen_case(rng, PROFILE)
+    if rng.random() < 0.3:
+        echo_task(rng, case["prog"])
     clash_fields(rng, case["prog"])
     untyped_messages(rng, case["prog"])
     if rng.random() < 0.15:
@@ -756,8 +812,9 @@ def run(ctx):
     arng = ctx.rng("asserts")
     n = ctx.budget(300, 10000)
     cases, reals, inputs = [], [], []
-    for _ in range(n):
-        case, wide = gen_program(rng)
+    fixed = corpus()
+    for k in range(n):
+        case, wide = (fixed[k], False) if k < len(fixed) else gen_program(rng)
         r = real_side(case, arng)
         r["wide"] = wide
         cases.append(case)
